@@ -44,6 +44,7 @@ import (
 	aeadsubtle "github.com/tink-crypto/tink-go/v2/aead/subtle"
 	"github.com/tink-crypto/tink-go/v2/insecurecleartextkeyset"
 	"github.com/tink-crypto/tink-go/v2/keyset"
+	slhdsapb "github.com/tink-crypto/tink-go/v2/proto/slh_dsa_go_proto"
 	tinkpb "github.com/tink-crypto/tink-go/v2/proto/tink_go_proto"
 	_ "github.com/tink-crypto/tink-go/v2/signature/compositemldsa" // not linked in by package signature
 	"github.com/tink-crypto/tink-go/v2/tink"
@@ -276,6 +277,23 @@ var rereadPaths = []struct {
 	}},
 }
 
+// slhPublicCopiesAgree: the primary SLH-DSA private key carries its public key twice (the tail of the secret key
+// bytes and the embedded public key message); true if both copies are equal.
+func slhPublicCopiesAgree(ks *tinkpb.Keyset) bool {
+	for _, k := range ks.Key {
+		if k == nil || k.KeyId != ks.PrimaryKeyId || k.KeyData == nil {
+			continue
+		}
+		var pk slhdsapb.SlhDsaPrivateKey
+		if err := proto.Unmarshal(k.KeyData.Value, &pk); err != nil {
+			return true
+		}
+		sk, pub := pk.GetKeyValue(), pk.GetPublicKey().GetKeyValue()
+		return len(sk) == 2*len(pub) && bytes.Equal(sk[len(pub):], pub)
+	}
+	return true
+}
+
 func judge(x *h.X, ks *tinkpb.Keyset, seedType, what string, pristine bool, allPaths bool, seed ...*tinkpb.Keyset) {
 	view := viewOf(ks)
 	wf := ref.KeysetWellFormed(view)
@@ -388,7 +406,10 @@ func judge(x *h.X, ks *tinkpb.Keyset, seedType, what string, pristine bool, allP
 		if r.created && r.used && !r.consistent {
 			if r.noPublic {
 				x.Outcome(seedType + "|accepted,public-half-unavailable(not-judged)")
-			} else if ptype == "SlhDsaPrivateKey" {
+			} else if ptype == "SlhDsaPrivateKey" && slhPublicCopiesAgree(ks) {
+				// SK.seed / SK.prf / PK.seed changed consistently in both copies: PK.root can only be checked by
+				// rebuilding the whole tree, which the parser does not do (exempt). If the two copies of the
+				// public key inside the private key DIFFER, the key contradicts itself and must have been refused.
 				x.Outcome(seedType + "|accepted,slh-dsa-private-not-self-consistent(exempt)")
 			} else {
 				x.Fail("inconsistent/"+ptype, "%s: accepted %s handle yields a %s primitive that is not self-consistent: %s", what, ptype, c, r.detail)
